@@ -98,3 +98,32 @@ package memmetrics
 //@   modifies elems(c.values)
 //@   ensures sum_of_buckets: result == vsum(c, len(c.values))
 //@   ensures buckets_are_window: cleanAt(c, lastclock)
+
+//@ type RatioCounter
+//@   extsync
+//@   mutators Ratio IncA IncB Reset CountA CountB ProcessedCount
+//@   immutable a b
+
+//@ func (*RatioCounter).Ratio
+//@   props C17
+//@   assume clock_stable
+//@   requires r != nil && r.a != nil && r.b != nil && r.a != r.b && backing(r.a.values) != backing(r.b.values) && cfgOK(r.a) && RC(r.a) && cfgOK(r.b) && RC(r.b) && lastclock >= (len(r.a.values) + 1) * r.a.resolution && lastclock >= (len(r.b.values) + 1) * r.b.resolution
+//@   modifies elems(r.a.values), elems(r.b.values)
+//@   ensures empty_is_zero: callres(Count, 0, 0) + callres(Count, 1, 0) == 0 ==> result == 0.0
+//@   ensures ratio: callres(Count, 0, 0) + callres(Count, 1, 0) != 0 ==> result == real(callres(Count, 0, 0)) / real(callres(Count, 0, 0) + callres(Count, 1, 0))
+//@   ensures counts_are_the_two_counters: callarg(Count, 0, 0) == r.a && callarg(Count, 1, 0) == r.b
+
+//@ func NewCounter
+//@   props C17
+//@   modifies everything
+//@   ensures rejects_bad_config: (buckets <= 0 || resolution < 1000000000) ==> result1 != nil
+//@   ensures accepts_good_config: buckets >= 1 && resolution >= 1000000000 && len(options) == 0 ==> result1 == nil
+//@   loop 1 invariant len(options) == 0 ==> rc != nil && fresh(rc) && rc.resolution == resolution && len(rc.values) == buckets && rc.lastUpdated == zerotime && (forall j int :: 0 <= j && j < buckets ==> rc.values[j] == 0)
+//@   ensures empty_counter: result1 == nil && len(options) == 0 ==> result0 != nil && fresh(result0) && result0.resolution == resolution && len(result0.values) == buckets && result0.lastUpdated == zerotime && (forall j int :: 0 <= j && j < buckets ==> result0.values[j] == 0)
+
+//@ func (*RollingCounter).Reset
+//@   props C17
+//@   requires c != nil
+//@   modifies elems(c.values), c.lastBucket, c.countedBuckets, c.lastUpdated
+//@   ensures emptied: c.lastUpdated == zerotime && c.countedBuckets == 0 && (forall j int :: 0 <= j && j < len(c.values) ==> c.values[j] == 0)
+//@   loop 1 invariant -1 <= rangeindex && rangeindex < len(c.values) && len(c.values) == old(len(c.values)) && (forall j int :: 0 <= j && j <= rangeindex ==> c.values[j] == 0)
